@@ -420,6 +420,9 @@ fn run_shared(tracer: &Tracer, rng: &mut StdRng, in_warmer: bool, tag: Value) {
                 t.emit(json!({"ev":"reload_start","r":5,"t":name}));
                 match reader.reload() {
                     Ok(()) => {
+                        // the read below happens after this event: whatever other threads logged before it
+                        // was exposed before the read began (the result event alone may be logged late)
+                        t.emit(json!({"ev":"read_start","r":5,"t":name}));
                         let s = reader.searcher();
                         let obs = obs_of(&s, &t);
                         t.emit(json!({"ev":"reload","r":5,"t":name,"ok":true,"gen":0,"obs":obs}));
